@@ -193,6 +193,12 @@ def numsOfJson : Json → Except String (Option Nums)
     match j.getObjVal? "scalar" with
     | .ok v => return some (.scalar (← v.getInt?))
     | .error _ => pure ()
+    match j.getObjVal? "fractional" with
+    | .ok v =>
+      let a ← v.getArr?
+      if a.size ≠ 2 then throw "fractional: [isSeq, n] expected"
+      return some (.fractional (← a[0]!.getBool?) (← a[1]!.getNat?))
+    | .error _ => pure ()
     match j.getObjVal? "seq" with
     | .ok v => return some (.seq (← intListOfJson v))
     | .error _ => return some (.seq (← intListOfJson j))
@@ -248,7 +254,8 @@ partial def buildSpec (j : Json) : Except String (Except ErrKind Item) := do
         | x => do
           let l ← (← x.getArr?).toList.mapM intListOfJson
           pure (some l)
-      pure (mkWaveformA name (← getStr a "cls") (← getStr a "inst") ch rel)
+      let frac := (a.getObjValD "fractional").getBool?.toOption.getD false
+      pure (mkWaveformAF name (← getStr a "cls") (← getStr a "inst") ch frac rel)
     | "SCOORD" => pure (mkScoord (← flOfJson a) name (← getStr a "gt") (← pointsOfJson a) (← getOptStr a "origin") (← getOptStr a "fiducial") rel)
     | "SCOORD3D" => pure (mkScoord3d (← flOfJson a) name (← getStr a "gt") (← pointsOfJson a) (← getStr a "frame_of_reference")
                           (← getOptStr a "fiducial") rel)
@@ -272,7 +279,8 @@ partial def buildSpec (j : Json) : Except String (Except ErrKind Item) := do
         | some (.offsets l) => pure (mkTcoordA id name (← getStr a "range") none (some l) none rel)
         | some (.datetimes l) => pure (mkTcoordA id name (← getStr a "range") none none (some l) rel)
       | .error _ =>
-        pure (mkTcoordA id name (← getStr a "range") (← optIntList (a.getObjValD "positions")) (← optRatList (a.getObjValD "offsets"))
+        let frac := (a.getObjValD "fractional").getBool?.toOption.getD false
+        pure (mkTcoordAF id name (← getStr a "range") (← optIntList (a.getObjValD "positions")) frac (← optRatList (a.getObjValD "offsets"))
                 (← optStrList (a.getObjValD "datetimes")) rel)
     | _ => throw s!"unknown value type {vt}"
   match r with
